@@ -528,6 +528,8 @@ pub fn run_free(sc: &ThreadScenario, suts: &[Option<TSut>]) -> Vec<Vec<Vec<R>>> 
     let slots: Mutex<Vec<Option<InFlight>>> = Mutex::new((0..sc.slots).map(|_| None).collect());
     let counters = Mutex::new(Counters::default());
     let results: Mutex<Vec<Vec<Vec<R>>>> = Mutex::new(vec![Vec::new(); n]);
+    // all threads start their first operation together (first-use races)
+    let gate = std::sync::Barrier::new(n);
     {
         let env = Env { suts, fixed: &sc.fixed_hays, slots: &slots, counters: &counters };
         std::thread::scope(|scope| {
@@ -535,8 +537,10 @@ pub fn run_free(sc: &ThreadScenario, suts: &[Option<TSut>]) -> Vec<Vec<Vec<R>>> 
                 let env = &env;
                 let results = &results;
                 let ops = &sc.threads[tid];
+                let gate = &gate;
                 scope.spawn(move || {
                     let mut bufs: Vec<Vec<u8>> = vec![Vec::with_capacity(256), Vec::with_capacity(256)];
+                    gate.wait();
                     let mut res = Vec::with_capacity(ops.len());
                     for op in ops.iter() {
                         res.push(exec_op(env, None, &mut bufs, op, tid));
@@ -582,6 +586,9 @@ pub fn run_seq(sc: &ThreadScenario, suts: &[Option<TSut>]) -> Vec<Vec<Vec<R>>> {
     results
 }
 
+/// High-contention scenarios per run index in the Miri batch (plus one general one).
+pub const MIRI_RACE_PER_INDEX: u64 = 5;
+
 /// `simctl miri-run <seed> <from> <to> [replay-file|-] [seq]`: reduced scenarios,
 /// free-running threads, results compared with the sequential reference.
 pub fn miri_run(seed: u64, from: u64, to: u64, replay_file: Option<&str>, sequential: bool) -> i32 {
@@ -593,13 +600,18 @@ pub fn miri_run(seed: u64, from: u64, to: u64, replay_file: Option<&str>, sequen
             let rf: ReplayFile = serde_json::from_str(&s).expect("replay json");
             vec![(0, serde_json::from_value(rf.scenario).expect("scenario"))]
         }
-        // every index runs one general reduced scenario and two high-contention ones
+        // every index runs one general reduced scenario and MIRI_RACE_PER_INDEX high-contention ones
         None => (from..to)
-            .flat_map(|i| vec![(i, gen_thread("miri", seed, i)), (i, gen_thread("race", seed, 2 * i)), (i, gen_thread("race", seed, 2 * i + 1))])
+            .flat_map(|i| {
+                let mut v = vec![(i, gen_thread("miri", seed, i))];
+                for k in 0..MIRI_RACE_PER_INDEX {
+                    v.push((i, gen_thread("race", seed, MIRI_RACE_PER_INDEX * i + k)));
+                }
+                v
+            })
             .collect(),
     };
     for (idx, sc) in scenarios {
-        let t0 = std::time::Instant::now();
         let want = match reference_with(&sc, false) {
             Ok(r) => r,
             Err(e) => {
@@ -623,7 +635,7 @@ pub fn miri_run(seed: u64, from: u64, to: u64, replay_file: Option<&str>, sequen
                 println!("MIRI-RUN idx={} MISMATCH class={} detail: {} [{}]", idx, v.class, v.detail.replace('\n', " "), sc.origin);
                 println!("MIRI-SCENARIO {}", serde_json::to_string(&sc).unwrap());
             }
-            None => println!("MIRI-RUN idx={} ok threads={} ops={} [{}] {}ms", idx, sc.threads.len(), nops, sc.origin, t0.elapsed().as_millis()),
+            None => println!("MIRI-RUN idx={} ok threads={} ops={} [{}]", idx, sc.threads.len(), nops, sc.origin),
         }
     }
     if bad > 0 {
